@@ -78,7 +78,7 @@ theorem splitPath_of_parsePointer {path : Bytes} {toks : List Bytes}
         have hsplit : splitSlash (47 :: cs) = [] :: p :: ps := by
           simp [splitSlash, hs]
         refine ⟨(p :: ps).dropLast, decodeToken ((p :: ps).getLast?.getD []), ?_, ?_⟩
-        · simp only [splitPath, hsplit]
+        · simp [splitPath, hsplit]
         · rw [← h, hs]
           have : p :: ps = (p :: ps).dropLast ++ [(p :: ps).getLast (by simp)] :=
             (List.dropLast_concat_getLast (by simp)).symm
@@ -86,6 +86,34 @@ theorem splitPath_of_parsePointer {path : Bytes} {toks : List Bytes}
           have hf : (Spec.decodeTok : Bytes → Bytes) = decodeToken := funext decodeTok_eq
           simp only [List.map_append, List.map_cons, List.map_nil, hf]
           simp [List.getLast?_eq_some_getLast]
+
+/-- the first segment `strings.Split` returns: everything before the first `/` -/
+theorem splitSlash_head_cons (c : UInt8) (cs : Bytes) (hc : c ≠ 47) :
+    ∃ p ps, splitSlash (c :: cs) = (c :: p) :: ps := by
+  simp only [splitSlash]
+  have hl := splitSlash_ne_nil cs
+  cases hs : splitSlash cs with
+  | nil => exact absurd hs hl
+  | cons p ps => exact ⟨p, ps, by simp [hc]⟩
+
+/-- a non-empty pointer without a leading `/` (outside RFC 6901): `findObject` returns nil -/
+theorem splitPath_of_parsePointer_none {path : Bytes} (h : Spec.parsePointer path = none) :
+    splitPath path = none := by
+  cases path with
+  | nil => simp [Spec.parsePointer] at h
+  | cons c cs =>
+    simp only [Spec.parsePointer] at h
+    split at h
+    · next hc =>
+      obtain ⟨p, ps, hs⟩ := splitSlash_head_cons c cs hc
+      simp only [splitPath, hs]
+      cases ps with
+      | nil => simp
+      | cons q qs => simp
+    · cases h
+
+theorem parsePointer_none_ne_nil {path : Bytes} (h : Spec.parsePointer path = none) : path ≠ [] := by
+  intro hp; subst hp; simp [Spec.parsePointer] at h
 
 /-! ### navigation -/
 
